@@ -1,15 +1,18 @@
 //! C10: cache. script = [policy (0 LRU,1 LFU,2 FIFO), max_size, ttl (-1 none), sh,
 //!   n callers, m events, (op a b)*m, (oracle*m: ignored here, read by the model)]
 //!   sh mod 4: 0 private (CacheLayer), 1 SharedCacheLayer::builder, 2|3 CacheLayer::shared();
-//!   sh / 4 odd: ttl is in microseconds, otherwise in milliseconds
+//!   (sh / 4) odd: ttl is in fine units, otherwise in milliseconds; (sh / 8) odd: the fine unit is the
+//!   nanosecond, otherwise the microsecond
 //! op 0 Call a on service b/8 with key b%8 (fresh clone of the service)
 //!    5 Call a with key b%128 (<120) on service (b/128)%2; b/256 = 1: through the long-lived service
 //!      value itself (several calls on one `Cache` value), 0: through a fresh clone
-//!    1 Poll a | 2 Drop a | 3 Advance a ms (1 ms steps) | 6 Advance a microseconds (one jump)
+//!    7 Call a with key b%256 (<240) on service (b/256)%2; b/512 = 1: long-lived service value
+//!    1 Poll a | 2 Drop a | 3 Advance a ms (1 ms steps) | 6 Advance a fine units (one jump)
 //!    4 Complete a b (b>0 Ok b, b=0 Err, b<0 panic)
 //! trace per event = [r, value, inner calls started, inner calls in flight,
 //!                    listener events (1 hit, 2 miss, 4 eviction),
-//!                    keys present in store 0, in store 1, values present in store 0, in store 1]
+//!                    keys present in store 0 (two words: keys 0..119, keys 120..239), in store 1 (two words),
+//!                    values present in store 0 (two words), in store 1 (two words)]
 //!
 //! Presence in a store is observed without any hook, twice:
 //!  * keys: the key type counts its live instances (new/clone/drop). The only holders of a key are the
@@ -17,7 +20,9 @@
 //!    captured by the async block in Cache::call), which the harness knows.
 //!  * values: the response type counts its live instances per (store tag, key) of the request it answers.
 //!    A response exists only from the completion of the inner future on; the holders are the store
-//!    (entry.value) and the not yet polled futures of hits (one clone each), which the harness knows;
+//!    (entry.value), the not yet polled futures of hits (one clone each) and the futures of misses whose inner
+//!    call has completed Ok but which have not returned yet (one each; none for the code as it is), which
+//!    the harness knows;
 //!    the harness drops every response it receives at once.
 //! Both read the same for the code as it is; they differ for a store that keeps key copies of removed
 //! entries (lazy deletion) or interns keys — the property monitor (gen/c10.py) uses the value view.
@@ -31,7 +36,7 @@ use tower::{Layer, Service};
 use tower_resilience_cache::{Cache, CacheError, CacheLayer, EvictionPolicy, SharedCacheLayer};
 use verif_harness::*;
 
-const NK: usize = 128;
+const NK: usize = 256;
 const Z: AtomicI64 = AtomicI64::new(0);
 static LIVE: [[AtomicI64; NK]; 2] = [[Z; NK], [Z; NK]];
 static LIVE_VAL: [[AtomicI64; NK]; 2] = [[Z; NK], [Z; NK]];
@@ -127,7 +132,8 @@ fn run(s: &[i128]) -> Vec<i128> {
     let max_size = zn(s, 1).max(0) as usize;
     let ttl = zn(s, 2);
     let shared = zn(s, 3).rem_euclid(4);
-    let ttl_us = zn(s, 3).div_euclid(4).rem_euclid(2) == 1;
+    let ttl_fine = zn(s, 3).div_euclid(4).rem_euclid(2) == 1;
+    let ns = zn(s, 3).div_euclid(8).rem_euclid(2) == 1;
     let n = zn(s, 4).max(0) as usize;
     let m = zn(s, 5).max(0) as usize;
     for row in LIVE.iter().chain(LIVE_VAL.iter()) {
@@ -137,7 +143,9 @@ fn run(s: &[i128]) -> Vec<i128> {
     }
     let ttl_dur = if ttl < 0 {
         None
-    } else if ttl_us {
+    } else if ttl_fine && ns {
+        Some(Duration::from_nanos(ttl.min(u64::MAX as i128) as u64))
+    } else if ttl_fine {
         Some(Duration::from_micros(ttl.min(u64::MAX as i128) as u64))
     } else {
         Some(Duration::from_millis(ttl.min((u64::MAX / 1000) as i128) as u64))
@@ -192,6 +200,9 @@ fn run(s: &[i128]) -> Vec<i128> {
         let mut callers: Vec<Option<Manual<Res>>> = (0..n).map(|_| None).collect();
         let mut miss: Vec<Option<(u8, u8)>> = vec![None; n];
         let mut hit: Vec<Option<(u8, u8)>> = vec![None; n];
+        // scripted outcome is Ok / the inner future of this caller ran to completion: its response exists
+        let mut ok_outcome: Vec<bool> = vec![false; n];
+        let mut inner_done: Vec<bool> = vec![false; n];
         let mut tr = Vec::new();
         let evs: Vec<(i128, i128, i128)> = s[6.min(s.len())..]
             .chunks(3)
@@ -211,16 +222,20 @@ fn run(s: &[i128]) -> Vec<i128> {
                 5 if (0..512).contains(&b) && b % 128 < 120 => {
                     Some((((b / 128) % 2) as usize, (b % 128) as u8, b / 256 == 1))
                 }
+                7 if (0..1024).contains(&b) && b % 256 < 240 => {
+                    Some((((b / 256) % 2) as usize, (b % 256) as u8, b / 512 == 1))
+                }
                 _ => None,
             };
             match op {
                 3 => advance_ms(a.clamp(0, 100_000) as u64).await,
                 6 => {
-                    let us = a.clamp(0, 1_000_000_000_000) as u64;
-                    VIRT_NS.fetch_add(us * 1000, Ordering::SeqCst);
-                    tokio::time::advance(Duration::from_micros(us)).await;
+                    let fine = a.clamp(0, 1_000_000_000_000) as u64;
+                    let d = if ns { Duration::from_nanos(fine) } else { Duration::from_micros(fine) };
+                    VIRT_NS.fetch_add(d.as_nanos() as u64, Ordering::SeqCst);
+                    tokio::time::advance(d).await;
                 }
-                0 | 5 if valid && call.is_some() && callers[i].is_none() => {
+                0 | 5 | 7 if valid && call.is_some() && callers[i].is_none() => {
                     let (svc_id, k, reuse) = call.unwrap();
                     let tag = if shared != 0 { 0u8 } else { svc_id as u8 };
                     table.lock().unwrap()[i] = (tag, k);
@@ -267,7 +282,9 @@ fn run(s: &[i128]) -> Vec<i128> {
                 }
                 4 if valid => {
                     let o = if b > 0 { Outcome::Ok(b) } else if b == 0 { Outcome::Err(a) } else { Outcome::Panic };
-                    sh.complete(a, 0, o);
+                    if sh.complete(a, 0, o) {
+                        ok_outcome[i] = b > 0;
+                    }
                 }
                 _ => {}
             }
@@ -278,40 +295,54 @@ fn run(s: &[i128]) -> Vec<i128> {
             h0 = h1;
             m0 = m1;
             e0 = e1;
-            // holders outside the stores: one key per pending miss, one response per unpolled hit
+            for req in std::mem::take(&mut *sh.finished.lock().unwrap()) {
+                if req >= 0 && (req as usize) < n {
+                    inner_done[req as usize] = true;
+                }
+            }
+            // holders outside the stores: one key per pending miss, one response per unpolled hit and per miss
+            // whose inner call has completed Ok but whose future has not returned yet (never the case for the
+            // code as it is: the poll that completes the inner call returns)
             let mut pend_k = [[0i64; NK]; 2];
             let mut pend_v = [[0i64; NK]; 2];
             for j in 0..n {
                 if callers[j].as_ref().map_or(false, |c| c.alive()) {
                     if let Some((t, k)) = miss[j] {
                         pend_k[t as usize][k as usize] += 1;
+                        if inner_done[j] && ok_outcome[j] {
+                            pend_v[t as usize][k as usize] += 1;
+                        }
                     }
                     if let Some((t, k)) = hit[j] {
                         pend_v[t as usize][k as usize] += 1;
                     }
                 }
             }
-            let mut pres = [0i128; 2];
-            let mut pres_v = [0i128; 2];
+            // [store][word]: word 0 = keys 0..119, word 1 = keys 120..239
+            let mut pres = [[0i128; 2]; 2];
+            let mut pres_v = [[0i128; 2]; 2];
             for tag in 0..2usize {
-                for k in 0..120usize {
+                for k in 0..240usize {
+                    let (w, bit) = (k / 120, k % 120);
                     let live = LIVE[tag][k].load(Ordering::SeqCst) - pend_k[tag][k];
-                    if live > 0 && pres[tag] >= 0 {
-                        pres[tag] += 1 << k;
+                    if live > 0 && pres[tag][w] >= 0 {
+                        pres[tag][w] += 1 << bit;
                     }
                     if live < 0 {
-                        pres[tag] = -1_000_000; // accounting broken: make it visible
+                        pres[tag][w] = -1_000_000; // accounting broken: make it visible
                     }
                     let live_v = LIVE_VAL[tag][k].load(Ordering::SeqCst) - pend_v[tag][k];
-                    if live_v > 0 && pres_v[tag] >= 0 {
-                        pres_v[tag] += 1 << k;
+                    if live_v > 0 && pres_v[tag][w] >= 0 {
+                        pres_v[tag][w] += 1 << bit;
                     }
                     if live_v < 0 {
-                        pres_v[tag] = -1_000_000;
+                        pres_v[tag][w] = -1_000_000;
                     }
                 }
             }
-            tr.extend([r, val, started, sh.inflight() as i128, evt, pres[0], pres[1], pres_v[0], pres_v[1]]);
+            tr.extend([r, val, started, sh.inflight() as i128, evt]);
+            tr.extend([pres[0][0], pres[0][1], pres[1][0], pres[1][1]]);
+            tr.extend([pres_v[0][0], pres_v[0][1], pres_v[1][0], pres_v[1][1]]);
         }
         drop(callers);
         drop(base);
